@@ -28,12 +28,13 @@ Deep == { Arr(<<x, y>>) : x \in {Arr(<<S(<<92>>)>>), Obj(<< <<<<97>>, Num("1")>>
         \cup { Obj(<< <<<<97>>, x>> >>) : x \in {Arr(<<S(<<10>>), Num("-1")>>), Obj(<< <<<<>>, [t |-> "z", v |-> 0]>> >>)} }
 Values == { S(s) : s \in Strs(MaxLen) } \cup { Num(x) : x \in Numbers } \cup Leaves \cup Flat \cup Deep
 
-(* TileJSON documents: name (string), list value, byte values, optional bounds / center / vector_layers *)
+(* TileJSON documents: name (string), list value, byte values, optional bounds / center / vector_layers;
+   bounds: 0 none, 1 a box containing the stored tiles, 2 a POINT and 3 a meridian LINE inside the stored tiles (zero area) *)
 Names == { <<110, 97, 109, 101>>, <<34, 92, 233, 10>>, <<>> }
 \* a byte value (any other numeric key of the document): the boundaries of the byte range are part of the model
 ByteOf(mn, li) == IF li = 1 THEN 255 ELSE IF mn = 0 THEN 0 ELSE IF mn = 3 THEN 254 ELSE 7
 Docs == { [name |-> nm, minzoom |-> mn, maxzoom |-> mx, bounds |-> b, center |-> ct, vl |-> vl, list |-> li, byte |-> ByteOf(mn, li)] :
-            nm \in Names, mn \in {-1, 0, 3}, mx \in {-1, 2, 9}, b \in {0, 1}, ct \in {0, 1}, vl \in {0, 1}, li \in {0, 1} }
+            nm \in Names, mn \in {-1, 0, 3}, mx \in {-1, 2, 9}, b \in {0, 1, 2, 3}, ct \in {0, 1}, vl \in {0, 1}, li \in {0, 1} }
 CovClasses == { <<0, 2>>, <<2, 2>>, <<1, 9>> }      \* zoom range of the stored tiles
 Fmts == {"versatiles", "pmtiles", "tar", "directory"}
 
